@@ -158,4 +158,20 @@ CHECKS = {
         "level_text": 'Decides the structural clauses: which group a value is read from, that it is not cast/wrapped, which regex API is applied, that options take effect and that extraction is pure. The converted values themselves (regex engine, std parsers, chrono) are trusted.',
         "level_note": 'Trusted: regex leftmost-match semantics, std FromStr, chrono date validation; MIR of the nightly front end.',
     },
+    "C02": {
+        "modules": ["rules_c02"],
+        "explanation": "Arm-table and provenance rules on MIR: ValueType::convert_from_json maps every declared type to the serde_json accessor of the same kind (callee set per arm, no numeric cast, no wildcard, element-wise recursion for arrays); in the JSON arm of ColumnParsing::extract DEFAULT is applied only on the path-absent edge of get_value and the CONVERT branch goes as_str -> ValueType::parse while the other goes convert_from_json; JsonAccess::get_value follows Field steps with Value::get(name) and Array steps with as_array + get(index) with the step's own unmodified name/index, recursing on the inner step, and uses no other serde_json accessor; the per-line JSON parse happens once, outside any loop, under any_json_columns, and is consumed by unwrap_or(Null).",
+        "trusted": ["rustc nightly MIR + trait resolution", "dependencies behave as documented"],
+        "technique": 'static arm-table extraction, def-use provenance and who-may-call rules on MIR',
+        "level_text": "Decides the structural clauses (which accessor per type, no coercion, how the path is walked, when DEFAULT applies, totality of the parse). serde_json's own number model and parser are trusted.",
+        "level_note": 'Trusted: serde_json accessors behave as documented; MIR of the nightly front end.',
+    },
+    "C03": {
+        "modules": ["rules_c03"],
+        "explanation": 'Rules on the MIR of ExpressionExecutionEngine::evaluate and SelectExecutionEngine::execute: site inventory rooted at evaluate (no unchecked arithmetic, narrowing cast or panicking call on evaluated data; guards re-proved); exhaustiveness of the top-level match (no wildcard); CompareOperator -> comparison primitive arm table with operand order checked by provenance (left, right), accepting the spelling through one Ordering; NULL-test dominance of the comparison dispatch and of the IN element comparison; ArithmeticOperator -> checked_add/sub/mul/div (INT closure, no raw integer operator) and + - * / (REAL closure); AND / OR short-circuit shape; `*` expanded from ColumnProvider::keys, exactly one push per projection on every path, one Row per call.',
+        "trusted": ["rustc nightly MIR + trait resolution", "dependencies behave as documented"],
+        "technique": 'static site inventory, arm-table extraction through closures, operand provenance and guard-dominance rules on MIR',
+        "level_text": 'Decides the operator <-> primitive tables, NULL guards, error discipline of arithmetic and the projection shape on every path. Whether each function computes its documented value is not decided.',
+        "level_note": "Trusted: std comparison/arithmetic primitives; Value's derived order (C16); MIR of the nightly front end.",
+    },
 }
